@@ -61,7 +61,10 @@ def scenarios():
     # whatever the interleaving, /a/x must afterwards serve the value of the process that kept it
     sc["S12_reader_eval_vs_rekeep"] = dict(setup=[B("keep", "fsm_a1", "f", "/a/x")],
                                            procs=[B("eval", "fsm_r1", "root_r"), B("keep", "fsm_a2", "f", "/a/x")],
-                                           allowed={0: ["r(f(1))", "r(f(2))"]}, final={"/a/x": ("fsm_a2", "f")}, final_norekeep=True)
+                                           allowed={0: ["r(f(1))", "r(f(2))"]}, final={"/a/x": ("fsm_a2", "f")}, final_norekeep=True,
+                                           # afterwards the code of /a/x goes back to version 1: what the reader computed during the race
+                                           # must not be served for it unless it was computed from version 1
+                                           post=[(B("keep", "fsm_a1", "f", "/a/x"), "f(1)"), (B("eval", "fsm_r1", "root_r"), "r(f(1))")])
     sc["S11_none_result"] = dict(setup=[], procs=[B("keep", "fsm_a1", "n", "/a/n"), B("keep", "fsm_a1", "n", "/a/n")], final={"/a/n": ("fsm_a1", "n")})
     return sc
 
@@ -112,6 +115,12 @@ def judge(name, sc, run, m):
                 if res[0] != "ok" or res[1][0] != want or res[1][1]:
                     probs.append((f"C07|{name}|final_rekeep|{'raises=' + res[1] if res[0] == 'exc' else 'recomputed_or_wrong'}",
                                   f"after all processes finished, re-keeping {path} in a fresh process gave {res!r}"))
+    for k, (b, want) in enumerate(sc.get("post", [])):
+        res, _, _ = E.run_sequential(m, vfs, b, pid=92 + k)
+        if res[0] != "ok" or res[1][0] != want:
+            probs.append((f"C07|{name}|afterwards|{b.desc['kind']}|{'raises=' + res[1] if res[0] == 'exc' else 'wrong_value=' + _abbr(res[1][0])}",
+                          f"after all processes finished, {b.desc['kind']} {b.desc.get('fn')} in a fresh process gave {res!r}, expected {want!r}"))
+            break
     return probs
 
 
